@@ -259,6 +259,18 @@ def _operator_cells(tier):
             yield "x = %s[%s]" % (a, b)
             yield "y = %s\ny[%s] = 1" % (a, b)
             yield "x = %s[%s..]" % (a, b) if b.lstrip("(-").split(" ")[0].replace(".", "").isdigit() else "x = %s[0..1]" % a
+    # iterators used again after they are exhausted, half-consumed, copied, or reversed
+    makers = ["'a,b,c'.split(',')", "'a b'.split(' ')", "'ab\\ncd'.lines()", "'héé'.chars()", "'héé'.char_indices()", "'ab'.bytes()", "[1, 2, 3].iter()", "(1, 2).iter()", "(1..4).iter()",
+              "{a: 1, b: 2}.keys()", "{a: 1, b: 2}.values()", "{a: 1}.iter()", "gen()", "[1, 2, 3].each(|v| v)", "[1, 2, 3].keep(|v| true)", "[1, 2, 3].chunks(2)", "[1, 2, 3].windows(2)",
+              "[1, 2].cycle().take(5)", "[1, 2, 3].enumerate()", "[1, 2].zip([3, 4])", "[1, 2].chain([3])", "[[1], [2]].flatten()", "[1, 2, 3].intersperse(0)", "[1, 2, 3].skip(1)", "[1, 2, 3].step(2)",
+              "[1, 2, 3].take(2)", "[1, 2, 3].reversed()", "[1, 2, 3].peekable()", "iterator.repeat(1, 3)", "iterator.once(1)", "iterator.generate((|| 1), 3)", "'a-b'.split(|c| c == '-')", "'  a'.trim().chars()"]
+    uses = ["x.to_list()", "x.to_tuple()", "x.count()", "x.last()", "x.next()", "x.next_back()", "x.to_string()", "x.to_map()", "x.min()", "x.sum()", "x.reversed().to_list()", "x.skip(1).to_list()",
+            "x.chunks(2).to_list()", "x.windows(2).to_list()", "copy(x).to_list()", "x.peekable().peek()", "x.cycle().take(3).to_list()", "x.advance(2)", "(size x)"]
+    for mk in makers:
+        for pre in (0, 1, 2, 5):
+            for u in uses:
+                yield "x = %s\n%sr = %s" % (mk, "x.next()\n" * pre, u)
+                yield "x = %s\nfor v in x\n  null\nr = %s" % (mk, u)
     ints = ["0", "1", "-1", "2", "3", "-3", "64", "255", "256", "65535", "65536", "70000", "4294967295", "4294967296", "9223372036854775807", "(-9223372036854775807 - 1)"]
     for c in ("[1, 2, 3]", "(1, 2, 3)", "'héllo'", "{a: 1, b: 2}", "(1..5)"):
         for a in ints:
